@@ -284,8 +284,7 @@ def shift(array, shift, out=None, order=3, mode='constant', cval=0.0,
     array = _maybe_filter(array, order, 'interpolate.shift', prefilter, dtype=np.float64)
     _check_mode(mode, cval, 'interpolation.shift')
     output = internal._get_output(array, out, 'interpolate.shift', dtype=np.float64, output=output)
-    shift = np.ascontiguousarray(shift, dtype=np.float64)
-    shift *= -1
+    shift = -np.ascontiguousarray(shift, dtype=np.float64)
     _interpolate.zoom_shift(array, None, shift, output, order, mode2int[mode], cval)
     return output
 
